@@ -76,7 +76,10 @@ ASSUMPTIONS = [
     "validate() is only required to pass on states whose norm/trace is within 1e-9 of 1 "
     "(it legitimately reports truncation losses)",
 ]
-FLOORS = {"channel_or_measurement": 0.25}
+# measured on a quiet full quick run: 0.5 / 0.10 / 0.06 of all evaluations
+FLOORS = {"channel_or_measurement": 0.25,
+          "G_complex_active_gate_on_correlated_subset": 0.04,
+          "attenuator_on_coherence_between_nonzero_numbers": 0.03}
 
 HBARS = [0.5, 1.0, 2.0, 3.7]
 P_LO, P_HI = -1e-12, 1 + 1e-9
@@ -545,7 +548,7 @@ def invariant(sim, state, desc, rng, pure_so_far, binfo, bi, ctx, lossy, nonunif
               postselected, n0, fg_extra):
     if sim == "G":
         inv_gaussian(state, desc["hbar"], desc["cutoff"], rng, pure_so_far, binfo,
-                     heavy=(bi < 2))
+                     heavy=(bi < 2 and not desc.get("light")))
         return None
     if sim == "F":
         return inv_fock_mixed(state, rng, binfo, ctx)
@@ -593,6 +596,58 @@ def branch_key(b):
     return tuple(float(x) for x in b.outcome)
 
 
+def complex_active_gate(step):
+    """Active Gaussian gate whose active block A has a non-zero imaginary part."""
+    if step["k"] != "gate":
+        return False
+    g, p = step["g"], step["p"]
+    if g in ("Squeezing", "Squeezing2"):
+        return abs(p["r"]) > 1e-3 and abs(math.sin(p["phi"])) > 1e-3
+    if g == "QuadraticPhase":
+        return abs(p["s"]) > 1e-3
+    return g == "GaussianTransform"
+
+
+def region_class(sim, desc, step, last_state, active):
+    """Class of the step about to be applied, decided on the state BEFORE it (public
+    getters only):
+      G  'G_complex_active_gate_on_correlated_subset': an active gate with complex active
+         block on a strict subset of the modes whose <a_i a_k> correlation with an
+         untouched mode k is non-zero (the cross-mode update of C and G is exercised);
+      F/PF 'attenuator_on_coherence_between_nonzero_numbers': Attenuator with
+         sin(2 theta) != 0 on a mode with rho[(n..),(m..)] != 0 for n != m, n, m >= 1."""
+    if last_state is None or step is None or step["k"] != "gate":
+        return None
+    try:
+        pos = [active.index(m) for m in step["modes"]]
+    except ValueError:
+        return None
+    if sim == "G":
+        if not complex_active_gate(step) or len(pos) >= len(active):
+            return None
+        _, _, g = gg.ladder_moments(np.asarray(last_state.xxpp_mean_vector),
+                                    np.asarray(last_state.xxpp_covariance_matrix),
+                                    desc["hbar"])
+        others = [i for i in range(len(active)) if i not in pos]
+        if float(np.abs(g[np.ix_(pos, others)]).max()) > 1e-3:
+            return "G_complex_active_gate_on_correlated_subset"
+        return None
+    if sim in ("F", "PF") and step["g"] == "Attenuator":
+        if abs(math.sin(2 * step["p"]["theta"])) < 1e-3:
+            return None
+        if type(last_state).__name__ == "FockState":
+            rho = np.asarray(last_state.density_matrix)
+        else:
+            v = np.asarray(last_state.state_vector)
+            rho = np.outer(v, v.conj())
+        basis = np.array(progs.basis_tuples(pq, last_state.d, last_state._config.cutoff))
+        n = basis[:, pos[0]]
+        mask = (n[:, None] >= 1) & (n[None, :] >= 1) & (n[:, None] != n[None, :])
+        if mask.any() and float(np.abs(rho[mask]).max()) > 1e-6:
+            return "attenuator_on_coherence_between_nonzero_numbers"
+    return None
+
+
 def prop_sequence(desc, ctx):
     sim = desc["sim"]
     steps = desc["steps"]
@@ -624,9 +679,19 @@ def prop_sequence(desc, ctx):
     if sim == "FG" and desc["prep"]["kind"] == "parent":
         hh = quadratic_hamiltonian(desc["d"], desc["prep"]["seed"], desc["prep"]["scale"])
         fg_extra = 1e-15 * math.exp(2 * float(np.linalg.eigvalsh(hh).max()))
+    active = list(range(desc["d"]))
+    last_state = None
+    regions = set()
     for upto in range(0, len(steps) + 1):
         s = steps[upto - 1] if upto else None
         name = step_name(s) if s else "prep"
+        if s is not None and sim in ("G", "F", "PF"):
+            rc = region_class(sim, desc, s, last_state, active)
+            if rc and rc not in regions:
+                regions.add(rc)
+                ctx.count(rc)
+            if s["k"] in ("measure", "postselect"):
+                active = [a for a in active if a not in s["modes"]]
         info = f"[{sim} d={desc['d']} hbar={desc['hbar']} after step {upto} ({name})]"
         if s is not None:
             if (s["k"] != "gate" and not (sim == "G" and pure_detection(s))) \
@@ -652,6 +717,7 @@ def prop_sequence(desc, ctx):
                             f"valid sequence raised {type(e).__name__}: {str(e)[:300]} {info}")
         cur = {}
         branches = list(res.branches)
+        last_state = branches[0].state if len(branches) == 1 else None
         for bi, b in enumerate(branches):
             state = b.state
             if state is None:
@@ -746,12 +812,43 @@ P_GATES = progs.PASSIVE + progs.KERR
 
 
 @st.composite
-def gaussian_sequence(draw):
-    d = draw(st.integers(1, 4))
+def complex_active_step(draw, d, active):
+    """Active gate with a complex active block on a STRICT subset of the active modes
+    (generic angles, non-zero strength) -- built, not filtered."""
+    names = ["Squeezing", "Squeezing", "QuadraticPhase"]
+    if len(active) >= 3:
+        names += ["Squeezing2", "GaussianTransform"]
+    name = draw(st.sampled_from(names))
+    k = 2 if name in ("Squeezing2", "GaussianTransform") else 1
+    modes = draw(progs.ordered_modes(d, k, active))
+    sign = draw(st.sampled_from([1.0, -1.0]))
+    if name == "QuadraticPhase":
+        p = {"s": sign * draw(st.floats(0.05, 0.36))}
+    elif name == "GaussianTransform":
+        p = {"seed": draw(st.integers(0, 2 ** 32)), "rmax": 0.24}
+    else:
+        p = {"r": sign * draw(st.floats(0.05, 0.3)), "phi": draw(st.floats(0.1, 3.0))}
+    return {"k": "gate", "g": name, "modes": modes, "p": p}
+
+
+@st.composite
+def gaussian_sequence(draw, correlated=False):
+    """correlated=True: >= 2 modes that are correlated across every cut from the start (a
+    layered Gaussian input, or a two-mode squeezer with a generic angle as first step) and
+    half of the gates are complex active gates on strict subsets, so that the cross-mode
+    part of the active-gate update is exercised with complex blocks."""
+    d = draw(st.integers(2 if correlated else 1, 4))
     hbar = draw(st.sampled_from(HBARS))
     cutoff = draw(st.sampled_from([1, 2, 3, 3, 4] if d <= 3 else [1, 2, 3]))
-    pk = draw(st.sampled_from(["vacuum", "vacuum", "gaussian", "gaussian", "thermal"]))
-    if pk == "gaussian":
+    pk = draw(st.sampled_from(["vacuum", "gaussian", "gaussian"] if correlated else
+                              ["vacuum", "vacuum", "gaussian", "gaussian", "thermal"]))
+    if pk == "gaussian" and correlated:
+        prep = {"kind": "gaussian", "g": {
+            "d": d, "seed": draw(st.integers(0, 2 ** 32)),
+            "kind": draw(st.sampled_from(["pure", "pure", "mixed", "partial"])),
+            "displaced": draw(st.booleans()), "layers": draw(st.sampled_from([1, 2])),
+            "rmax": 0.6}}
+    elif pk == "gaussian":
         prep = {"kind": "gaussian", "g": {
             "d": d, "seed": draw(st.integers(0, 2 ** 32)),
             "kind": draw(st.sampled_from(["pure", "pure", "mixed", "partial", "thermal"])),
@@ -764,12 +861,19 @@ def gaussian_sequence(draw):
         prep = {"kind": "vacuum"}
     active = list(range(d))
     steps = []
-    for _ in range(draw(st.integers(1, 8))):
+    if correlated and prep["kind"] == "vacuum":
+        steps.append({"k": "gate", "g": "Squeezing2",
+                      "modes": draw(progs.ordered_modes(d, 2, active)),
+                      "p": {"r": draw(st.sampled_from([1.0, -1.0])) * draw(st.floats(0.1, 0.3)),
+                            "phi": draw(st.floats(0.1, 3.0))}})
+    for _ in range(draw(st.integers(1, 8 - len(steps)))):
         choices = ["gate"] * 5 + ["channel"] * 2
         if len(active) >= 2:
             choices += ["measure"] * 2
         kind = draw(st.sampled_from(choices))
-        if kind == "gate":
+        if kind == "gate" and correlated and len(active) >= 2 and draw(st.booleans()):
+            steps.append(draw(complex_active_step(d, active)))
+        elif kind == "gate":
             g = draw(progs.gate(d, G_GATES, scale=0.6, pool=active))
             steps.append({"k": "gate", **g})
         elif kind == "channel":
@@ -796,6 +900,66 @@ def gaussian_sequence(draw):
 
 def fock_dim(d, cutoff):
     return math.comb(d + cutoff - 1, d)
+
+
+@st.composite
+def attenuated_coherence_sequence(draw, sim):
+    """Loss acting on coherences, by construction: the input is a superposition whose terms
+    carry two DIFFERENT NON-ZERO photon numbers in one mode (plus optionally a third term),
+    followed by number-conserving gates that need no compiled kernels (Kerr, CrossKerr)
+    and an Attenuator with a generic angle on that mode (last on the pure Fock simulator)."""
+    d = draw(st.integers(1, 3))
+    mode = draw(st.integers(0, d - 1))
+    n1 = draw(st.integers(1, 2 if d == 3 else 3))
+    n2 = n1 + draw(st.integers(1, 1 if d == 3 else 2))
+    occs = []
+    for n in (n1, n2):
+        o = [0] * d
+        o[mode] = n
+        if d > 1 and draw(st.booleans()):
+            o[draw(st.sampled_from([m for m in range(d) if m != mode]))] += 1
+        occs.append(o)
+    if draw(st.booleans()):
+        o3 = draw(progs.occupation(d, 2))
+        if o3 not in occs:
+            occs.append(o3)
+    amps = [[draw(st.floats(0.2, 1.0)) * draw(st.sampled_from([1.0, -1.0])),
+             draw(st.floats(-1.0, 1.0))] for _ in occs]
+    nrm = math.sqrt(sum(a * a + b * b for a, b in amps))
+    prep = {"kind": "superposition",
+            "terms": [[o, [a / nrm, b / nrm]] for o, (a, b) in zip(occs, amps)]}
+    n = max(sum(o) for o in occs)
+    cutoff = n + 1
+    for _ in range(draw(st.integers(0, 2))):
+        if fock_dim(d, cutoff + 1) <= 56:
+            cutoff += 1
+    active = list(range(d))
+    steps = []
+    for _ in range(draw(st.integers(0, 2))):
+        names = ["Kerr"] + (["CrossKerr"] if d >= 2 else [])
+        steps.append({"k": "gate", **draw(progs.gate(d, names, pool=active))})
+    theta = draw(st.one_of(st.floats(0.05, 1.5), progs.angle()))
+    steps.append({"k": "gate", "g": "Attenuator", "modes": [mode],
+                  "p": {"theta": theta, "mean_thermal_excitation": 0.0}})
+    excl = []
+    if sim == "PF":
+        excl.append(B_PF_ATT)
+    else:
+        for _ in range(draw(st.integers(0, 2))):
+            if draw(st.booleans()):
+                steps.append({"k": "gate", "g": "Attenuator",
+                              "modes": draw(progs.ordered_modes(d, 1, active)),
+                              "p": {"theta": draw(st.floats(0.05, 1.5)),
+                                    "mean_thermal_excitation": 0.0}})
+            else:
+                steps.append({"k": "gate", **draw(progs.gate(d, ["Kerr"], pool=active))})
+        if draw(st.integers(0, 2)) == 0:
+            k = draw(st.integers(1, d))
+            steps.append({"k": "measure", "m": "ParticleNumberMeasurement", "p": {},
+                          "modes": draw(progs.ordered_modes(d, k, active))})
+    return {"sim": sim, "d": d, "cutoff": cutoff, "hbar": draw(st.sampled_from(HBARS)),
+            "prep": prep, "steps": steps, "seed": draw(st.integers(1, 2 ** 20)),
+            "excl": excl}
 
 
 @st.composite
@@ -1335,8 +1499,22 @@ def parts(tier):
     search = [
         Part("validator", single_origin(prop_validator), strategy=validator_case(),
              examples=ex(400, 4000), budget_s=bud(15, 200)),
-        Part("G", single_origin(prop_sequence), strategy=gaussian_sequence(),
-             examples=ex(640, 8000), budget_s=bud(40, 1200)),
+        # moments only (no Fock/threshold probabilities, hence no compiled kernels): the
+        # physicality of the covariance matrix is decided even when a cold numba cache or
+        # a loaded machine eats the wall-clock budget of the full G part
+        Part("G_cov", single_origin(prop_sequence),
+             strategy=st.one_of(gaussian_sequence(), gaussian_sequence(correlated=True),
+                                gaussian_sequence(correlated=True)).map(
+                 lambda c: {**c, "light": True}),
+             examples=ex(640, 8000), budget_s=bud(25, 600)),
+        Part("F_att", single_origin(prop_sequence),
+             strategy=st.one_of(attenuated_coherence_sequence("F"),
+                                attenuated_coherence_sequence("PF")),
+             examples=ex(320, 4000), budget_s=bud(20, 400)),
+        Part("G", single_origin(prop_sequence),
+             strategy=st.one_of(gaussian_sequence(), gaussian_sequence(),
+                                gaussian_sequence(correlated=True)),
+             examples=ex(480, 8000), budget_s=bud(35, 1200)),
         Part("PF", single_origin(prop_sequence), strategy=fock_sequence("PF"),
              examples=ex(480, 6000), budget_s=bud(25, 900)),
         Part("F", single_origin(prop_sequence), strategy=fock_sequence("F"),
